@@ -3265,11 +3265,15 @@ class Serializer:
         if "" in declarations:
             default_namespace = declarations.pop("")
             if default_namespace:
-                attributes_data["xmlns"] = f'"{default_namespace}"'
+                attributes_data["xmlns"] = (
+                    f'"{default_namespace.translate(CCE_TABLE_FOR_ATTRIBUTES)}"'
+                )
             # else it would be an unprefixed, empty namespace
         for prefix in sorted(p for p in declarations if p[:-1] not in GLOBAL_PREFIXES):
             assert len(prefix) >= 2  # at least a colon and one letter
-            attributes_data[f"xmlns:{prefix[:-1]}"] = f'"{declarations[prefix]}"'
+            attributes_data[f"xmlns:{prefix[:-1]}"] = (
+                f'"{declarations[prefix].translate(CCE_TABLE_FOR_ATTRIBUTES)}"'
+            )
 
         attributes_data.update(self._generate_attributes_data(root))
         self._serialize_tag(root, attributes_data=attributes_data)
